@@ -35,5 +35,8 @@ def fill(add, not_yet):
     add("C16", "Lean 4 theorems about the probe-motion state machine (invariants of translate/rotate/flip/reference/reset over any history) + Float history correspondence with arim.core.Probe + invariant oracle",
         "Proof of the rigid-motion invariants on the model for every operation and hence every history; the same state machine runs on doubles next to a real Probe on random histories (locations, normals, PCS, PCS coordinates compared after each operation); the invariants are also evaluated on arim directly.",
         STD_NOTE)
-    for p in ["C03","C04","C05","C06","C07","C08","C09","C10","C11","C19"]:
+    add("C05", "Lean 4 theorems about the per-ray geometry model (signed/conventional rules, leg size, reversal, negative indices, travel time) + Float correspondence with the 17 RayGeometry queries (leg sizes and travel time bit for bit) + documented-rule oracle",
+        "Proof on the model of one ray; the same definitions run on doubles and are compared with RayGeometry on ray-traced 3-D paths with random orthonormal frames (bitwise for leg sizes and travel time, a few ulp for einsum-based quantities, exact sign decisions away from the azimuth boundaries, which a separate boundary stream covers); the documented rules are evaluated on arim directly.",
+        STD_NOTE + "arccos / arctan2 / sqrt are external routines.")
+    for p in ["C03","C04","C06","C07","C08","C09","C10","C11","C19"]:
         not_yet[p] = "check not built yet in this round (work in progress; Lean-4 proof + correspondence planned, see DESIGN.md section 6)"
